@@ -173,7 +173,7 @@ func AllocGuard(limit int, f func()) {
 	runtime.ReadMemStats(&a)
 	f()
 	runtime.ReadMemStats(&b)
-	if b.TotalAlloc-a.TotalAlloc > uint64(limit)+(64<<10) {
+	if b.TotalAlloc-a.TotalAlloc > uint64(limit) {
 		panic(Failure{"alloc-bound"})
 	}
 }
